@@ -17,6 +17,12 @@ from specs import recvbuf as R
 
 PROP = 'C19'
 
+# Clauses for two reported, not yet repaired defects.  They FAIL on the tree as it stands (native repros:
+# notes/findings/c19_cancelled_read_loses_data.py, c19_collect_output_duplicates.py) and are therefore switched on
+# only on request: PYVC_C19_PENDING=cancel,rebind ./check C19 quick   (both pass on the proposed patches)
+import os as _os
+PENDING = {x for x in _os.environ.get('PYVC_C19_PENDING', '').split(',') if x}
+
 ASSUMPTIONS = [
     'AnyStr is instantiated at bytes (self._encoding is None); the str instantiation runs the same statements over '
     'str with the same sequence algebra',
@@ -56,7 +62,8 @@ STREAM = {
     '_recv_buf': f'dict[{KT},seq[orexc[bytes]]]',
     '_read_locks': f'dict[{KT},opaque:Lock]',
     '_read_waiters': f'dict[{KT},opt[opaque:Future]]',
-    '_drain_waiters': f'dict[{KT},opaque:WaiterSet]',
+    '_drain_waiters': f'dict[{KT},seq[opaque:Future]]',     # (a set of futures; only iterated / add / remove)
+    '_readers': f'dict[{KT},opaque:Reader]',                # SSHProcess only: redirection sources per datatype
     # ghost (verification only)
     'ghost_base': 'seq[opaque:RbUnit]',        # unit stream buffered for datatype k when the read lock was acquired
     'ghost_app': 'seq[opaque:RbUnit]',         # unit stream appended for k by the environment since then
@@ -71,10 +78,37 @@ def should_block(c, new=True):
     return z3.And(f('_write_paused'), z3.Not(f('_connection_lost')))
 
 
+def has_reader(c, new=True, arg='datatype'):
+    m = c.newv('_readers') if new else c.oldv('_readers')
+    return z3.Select(m.dom, to_z3(c.argv(arg), KT))
+
+
 should_block_drain = Spec(
     PROP, 'stream', 'SSHStreamSession._should_block_drain', self_class='SSHStreamSession',
     params=dict(datatype=KT), classes=CLASSES, returns='bool', modifies=[],
     ensures=[('blocks-iff-paused-and-connected', lambda c: c.result == should_block(c))])
+
+# SSHProcess overrides it: a redirection source feeding this datatype also blocks drain()
+process_should_block_drain = Spec(
+    PROP, 'process', 'SSHProcess._should_block_drain', self_class='SSHStreamSession',
+    params=dict(datatype=KT), classes=CLASSES, returns='bool', modifies=[],
+    stubs={'super()._should_block_drain': contract_stub(lambda: should_block_drain)},
+    ensures=[('blocks-iff-redirected-or-paused-and-connected',
+              lambda c: c.result == z3.Or(has_reader(c, False), should_block(c)))])
+
+
+def should_block_z(st_field, dtz):
+    return z3.Or(z3.Select(st_field('_readers').dom, dtz),
+                 z3.And(st_field('_write_paused').z, z3.Not(st_field('_connection_lost').z)))
+
+
+def should_block_dyn_stub(cx):
+    """self._should_block_drain(datatype), dispatched dynamically: SSHStreamSession's version (no redirection sources:
+    _readers has no keys there) or SSHProcess's override - both proved above"""
+    return VBool(should_block_z(cx.selff, kz_of(cx.args[0])))
+
+
+should_block_dyn_stub.modifies = ()
 
 
 def drain_env_stub(cx):
@@ -83,12 +117,13 @@ def drain_env_stub(cx):
     was_lost = cx.selff('_connection_lost').z
     lost = cx.fresh('bool', 'env_connection_lost')
     o = Out(ret=VNone, sets={'_write_paused': cx.fresh('bool', 'env_write_paused'), '_connection_lost': lost,
-                             '_exception': cx.fresh('opt[opaque:Exc]', 'env_exception')},
+                             '_exception': cx.fresh('opt[opaque:Exc]', 'env_exception'),
+                             '_readers': cx.fresh(f'dict[{KT},opaque:Reader]', 'env_readers')},
             assume=[z3.Implies(was_lost, lost.z)], event=('await', ()))
     return [o, Out(exc=VExc('CancelledError'), event=('await', ()))]
 
 
-drain_env_stub.modifies = ('_write_paused', '_connection_lost', '_exception')
+drain_env_stub.modifies = ('_write_paused', '_connection_lost', '_exception', '_readers')
 
 
 def waiter_set_stub(name):
@@ -119,7 +154,7 @@ def has_key(c, field, arg='datatype'):
 drain = Spec(
     PROP, 'stream', 'SSHStreamSession.drain', self_class='SSHStreamSession',
     params=dict(datatype=KT), classes=CLASSES,
-    stubs={'self._should_block_drain': contract_stub(lambda: should_block_drain),
+    stubs={'self._should_block_drain': should_block_dyn_stub,
            'self._loop.create_future': ret('opaque:Future', 'waiter'),
            'self._drain_waiters[].add': waiter_set_stub('add'),
            'self._drain_waiters[].remove': waiter_set_stub('remove'),
@@ -131,6 +166,7 @@ drain = Spec(
     ensures=[
         # "drain returns only when more can be written": the blocking condition was re-checked after the last wake-up
         ('returns-only-when-writable', lambda c: z3.Not(c.new('_write_paused'))),
+        ('returns-only-when-no-redirection-feeds-this-datatype', lambda c: z3.Not(has_reader(c))),
         ('not-after-connection-error', lambda c: z3.Implies(c.new('_connection_lost'),
                                                             c.is_none(c.newv('_exception')))),
     ],
@@ -288,6 +324,33 @@ def await_stub(cx):
 
 
 await_stub.modifies = tuple(ENV_FIELDS)
+
+
+def block_stub(kind):
+    """`await self._block_read(datatype)` as used by read / readuntil: the environment step, PLUS the condition under
+    which a reader may suspend at all (progress: nobody wakes a reader after EOF, and nobody resumes a paused channel
+    while the only reader sleeps, so suspending then means never returning).  A reader may block only when no result
+    can be produced from what is buffered."""
+    def stub(cx):
+        env = cx.st.env
+        kz = stub_key(cx)
+        B = z3.Select(cx.selff('_recv_buf').val, kz)
+        cx.require('blocks-only-before-eof', z3.Not(cx.selff('_eof_received').z))
+        if kind == 'read':
+            d = cx.ex.deref(cx.st, env['data'])
+            nd = z3.IntVal(len(d.items)) if isinstance(d, VList) else z3.Length(d.z)
+            n, exact, br = env['n'].z, cx.ex.truthy(cx.st, env['exact']), cx.ex.truthy(cx.st, env['break_read'])
+            cx.require('blocks-only-when-nothing-is-buffered-for-this-datatype', z3.Length(B) == 0)
+            cx.require('blocks-only-when-no-result-can-be-returned-yet',
+                       z3.And(n != 0, z3.Not(z3.And(n > 0, nd > 0, z3.Not(exact))), z3.Not(br)))
+        else:
+            # readuntil: everything buffered has been scanned without a match, and the channel is not paused
+            # (a paused channel means the buffer is full: more data can never arrive - give up instead)
+            cx.require('blocks-only-while-the-channel-is-not-paused', z3.Not(cx.selff('_read_paused').z))
+            cx.require('blocks-only-after-scanning-everything-buffered', env['curbuf'].z == z3.Length(B))
+        return await_stub(cx)
+    stub.modifies = tuple(ENV_FIELDS)
+    return stub
 
 
 def lock_step(cx):
@@ -590,6 +653,13 @@ def read_raise_marker(c):
                   accounted(c), R.ok(buf(c)), flow_inv(c))
 
 
+def read_cancelled(c):
+    """a cancelled read (asyncio.wait_for timing out) consumes nothing: everything offered to it is still buffered"""
+    if not c.events('acquire'):
+        return z3.And(buf(c) == buf(c, False), c.new('_recv_buf_len') == c.old('_recv_buf_len'))
+    return z3.And(R.flat(buf(c)) == offered(c), accounted(c), R.ok(buf(c)))
+
+
 READ_LOOP_MOD = list(ENV_FIELDS)
 
 
@@ -626,7 +696,7 @@ read = Spec(
     local_types={'data': 'seq[bytes]'},
     stubs={'with self._read_locks[]': lock_step,
            'self._maybe_resume_reading': resume_stub,      # = contract of Spec maybe_resume
-           'self._block_read': await_stub,                 # = contract of Spec block_read
+           'self._block_read': block_stub('read'),         # = contract of Spec block_read + when blocking is allowed
            'asyncio.IncompleteReadError': ire_stub},
     loops={1: LoopSpec(header='True', modifies=READ_LOOP_MOD, invariant=read_inv, lemmas=read_loop_lemmas),
            2: LoopSpec(header='recv_buf and n != 0', modifies=['_recv_buf'], invariant=read_inv,
@@ -638,7 +708,8 @@ read = Spec(
          'negative-n-reads-to-eof', 'zero-n-reads-nothing'])] +
             [(lbl, _post(read_frame, i)) for i, lbl in enumerate(
                 ['buffer-length-accounting', 'no-empty-chunk-left', 'flow-control-invariant'])],
-    raises={'IncompleteReadError': read_raise_incomplete, 'CancelledError': True,
+    raises={'IncompleteReadError': read_raise_incomplete,
+            'CancelledError': read_cancelled if 'cancel' in PENDING else True,
             'Exception': read_raise_marker})
 read.alias_map_lists = True
 read.loops[2].lemmas_on_break = True
@@ -688,8 +759,9 @@ def sum_of_lengths_stub(cx):
         raise Unsupported('sum() of something that is not a generator expression')
     e = g.payload
     gen = e.generators[0]
-    if _ast.unparse(e.elt) != 'len(cast(AnyStr, data))' or _ast.unparse(gen.target) != 'data' or gen.ifs \
-            or not isinstance(gen.iter, _ast.Name):
+    tgt = _ast.unparse(gen.target)
+    if _ast.unparse(e.elt) not in (f'len(cast(AnyStr, {tgt}))', f'len({tgt})') or not isinstance(gen.target, _ast.Name) \
+            or gen.ifs or not isinstance(gen.iter, _ast.Name):
         raise Unsupported('sum() over an unexpected generator: ' + _ast.unparse(e))
     lst = cx.ex.deref(cx.st, cx.st.env[gen.iter.id])
     if not isinstance(lst, VSeq):
@@ -716,7 +788,10 @@ collect_one = Spec(
         # F8: the bytes handed out must leave the flow-control account, and reading must resume
         ('buffer-length-accounting', lambda c: accounted(c)),
         ('flow-control-invariant', lambda c: flow_inv(c)),
-    ])
+    ] + ([
+        # readers keep a reference to the list: it must be emptied in place, never replaced
+        ('buffer-list-object-is-kept', lambda c: z3.BoolVal(not c.new_state.heap.get('__list_slot_rebound__'))),
+    ] if 'rebind' in PENDING else []))
 collect_one.alias_map_lists = True
 collect_one.abstract_fns = ABSTRACT + ['rb_alldata']
 
@@ -962,7 +1037,7 @@ def make_readuntil(kind):
         PROP, 'stream', 'SSHStreamSession.readuntil', self_class='SSHStreamSession',
         params=params, classes=CLASSES, globals={'_NEWLINE': NEWLINE_TAG}, setup=setup,
         stubs={'with self._read_locks[]': lock_step, 'self._maybe_resume_reading': ru_resume_stub,
-               'self._block_read': await_stub, 'asyncio.IncompleteReadError': ire_stub,
+               'self._block_read': block_stub('readuntil'), 'asyncio.IncompleteReadError': ire_stub,
                're.escape': re_escape_stub, 're.compile': re_compile_stub, 'pat.search': search_stub,
                'match.end': match_end_stub},
         loops={1: LoopSpec(header='True', modifies=list(ENV_FIELDS) + ['ghost_gave_up'], invariant=inv, lemmas=lemmas),
@@ -1014,7 +1089,70 @@ def wake_stub(field):
 
 
 unblock_read_stub = wake_stub('ghost_woken')
-unblock_drain_stub = wake_stub('ghost_drain_woken')
+
+
+def unblock_drain_stub(cx):
+    """self._unblock_drain(datatype): the contract proved for it below (Spec unblock_drain) - the drainers of that
+    datatype are completed exactly when _should_block_drain(datatype) is false AT THE TIME OF THE CALL"""
+    m = cx.selff('ghost_drain_woken')
+    kz = kz_of(cx.args[0])
+    now = z3.Or(z3.Select(m.val, kz), z3.Not(should_block_z(cx.selff, kz)))
+    return [Out(ret=VNone, sets={'ghost_drain_woken': VMap(m.dom, z3.Store(m.val, kz, now), m.kt, m.vt)},
+                event=('wake:drain', tuple(cx.args)))]
+
+
+unblock_drain_stub.modifies = ('ghost_drain_woken',)
+
+# ---- _unblock_drain itself: for an arbitrary registered drainer (index ghost_widx in the set's iteration order)
+STREAM['ghost_widx'] = 'int'
+STREAM['ghost_set'] = 'dict[opaque:Future,bool]'      # futures completed by set_result() during this call
+CLASSES['SSHStreamSession'] = STREAM
+FDONE = z3.Function('future_done_before', opaque_sort('Future'), BoolS)
+
+
+def fut_done(m, w):
+    return z3.Or(FDONE(w), z3.Select(m.val, w))
+
+
+def fut_done_stub(cx):
+    return VBool(fut_done(cx.selff('ghost_set'), cx.recv.z))
+
+
+def fut_set_result_stub(cx):
+    m = cx.selff('ghost_set')
+    cx.require('set_result-only-on-a-pending-future', z3.Not(fut_done(m, cx.recv.z)))   # else InvalidStateError
+    return [Out(ret=VNone, osets=[(cx.ex.self_ref, 'ghost_set',
+                                   VMap(m.dom, z3.Store(m.val, cx.recv.z, True), m.kt, m.vt))])]
+
+
+fut_done_stub.modifies = ()
+fut_set_result_stub.modifies = ('ghost_set',)
+
+
+def view_waiter(c):
+    ws = z3.Select(c.oldv('_drain_waiters').val, kz_of(c.argv('datatype')))
+    return ws, c.old('ghost_widx')
+
+
+unblock_drain = Spec(
+    PROP, 'stream', 'SSHStreamSession._unblock_drain', self_class='SSHStreamSession',
+    params=dict(datatype=KT), classes=CLASSES, modifies=['ghost_set'],
+    stubs={'self._should_block_drain': should_block_dyn_stub, 'waiter.done': fut_done_stub,
+           'waiter.set_result': fut_set_result_stub},
+    loops={1: LoopSpec(header='for waiter in self._drain_waiters[datatype]', modifies=['ghost_set'],
+                       invariant=lambda c: z3.Implies(view_waiter(c)[1] < for_i(c),
+                                                      fut_done(c.newv('ghost_set'),
+                                                               view_waiter(c)[0][view_waiter(c)[1]])))},
+    requires=lambda c: z3.And(has_key(c, '_drain_waiters'), view_waiter(c)[1] >= 0,
+                              view_waiter(c)[1] < z3.Length(view_waiter(c)[0])),
+    ensures=[
+        ('every-registered-drainer-completed-when-drain-need-not-block',
+         lambda c: z3.Or(should_block_z(lambda f: c.oldv(f), kz_of(c.argv('datatype'))),
+                         fut_done(c.newv('ghost_set'), view_waiter(c)[0][view_waiter(c)[1]]))),
+        ('nobody-woken-while-drain-must-still-block',
+         lambda c: z3.Or(z3.Not(should_block_z(lambda f: c.oldv(f), kz_of(c.argv('datatype')))),
+                         c.newv('ghost_set').val == c.oldv('ghost_set').val)),
+    ])
 
 
 def woken(c, field='ghost_woken', k=None, new=True):
@@ -1056,6 +1194,7 @@ def data_received_post(c):
 data_received = Spec(
     PROP, 'stream', 'SSHStreamSession.data_received', self_class='SSHStreamSession',
     params=dict(data='bytes', datatype=KT), classes=CLASSES,
+    modifies=['_recv_buf', '_recv_buf_len', '_read_paused', 'ghost_woken'],
     stubs={'self._unblock_read': unblock_read_stub, 'self._maybe_pause_reading': contract_stub(lambda: maybe_pause)},
     # NO precondition on len(data): the channel hands over whatever it decoded (see finding: '' in str mode)
     requires=lambda c: z3.And(wf(c), view_is(c), accounted(c, False), R.ok(buf(c, False)), flow_inv(c, False)),
@@ -1068,6 +1207,11 @@ data_received = Spec(
         ('reader-woken-when-data-arrived', lambda c: z3.Implies(z3.Length(c.arg('data')) > 0, woken(c))),
     ])
 data_received.abstract_fns = ABSTRACT
+
+
+def drain_woken_or_redirected(c):
+    return z3.Or(z3.Select(c.oldv('_readers').dom, kz_of(c.oldv('ghost_wkey'))),
+                 woken(c, 'ghost_drain_woken', kz_of(c.oldv('ghost_wkey'))))
 
 
 def for_i(c):
@@ -1117,7 +1261,7 @@ connection_lost = Spec(
            2: LoopSpec(header='for datatype in self._drain_waiters', modifies=['ghost_drain_woken'],
                        invariant=lambda c: z3.Implies(
                            KEYPOS(c.oldv('_drain_waiters').dom, kz_of(c.oldv('ghost_wkey'))) < for_i(c),
-                           woken(c, 'ghost_drain_woken', kz_of(c.oldv('ghost_wkey')))))},
+                           drain_woken_or_redirected(c))),},
     requires=lambda c: z3.And(wf(c), accounted(c, False), R.ok(buf(c, False)), flow_inv(c, False),
                               c.oldv('_recv_buf').dom == c.oldv('_read_waiters').dom,
                               z3.Select(c.oldv('_drain_waiters').dom, kz_of(c.oldv('ghost_wkey')))),
@@ -1130,7 +1274,11 @@ connection_lost = Spec(
         ('eof-flag-set', lambda c: c.new('_eof_received')),
         ('blocked-readers-woken-unless-eof-was-already-signalled',
          lambda c: z3.Or(c.old('_eof_received'), woken(c))),
-        ('blocked-drainers-woken', lambda c: woken(c, 'ghost_drain_woken', kz_of(c.oldv('ghost_wkey')))),
+        # "drain ... fails if the channel is gone": the drainers are woken (the loss flag is set BEFORE they are looked
+        # at); with a redirection source still feeding that datatype they are woken when the source is removed
+        ('blocked-drainers-woken', lambda c: z3.Or(
+            z3.Select(c.oldv('_readers').dom, kz_of(c.oldv('ghost_wkey'))),
+            woken(c, 'ghost_drain_woken', kz_of(c.oldv('ghost_wkey'))))),
         ('buffer-length-accounting', lambda c: accounted(c)),
         ('no-empty-chunk-left', lambda c: R.ok(buf(c))),
         ('flow-control-invariant', lambda c: flow_inv(c)),
@@ -1151,6 +1299,7 @@ exception_received = Spec(
          lambda c: buf(c) == z3.Concat(buf(c, False), z3.Unit(R.mk_exc(c.arg('exc'))))),
         ('buffer-length-accounting', lambda c: accounted(c)),
         ('no-empty-chunk-left', lambda c: R.ok(buf(c))),
+        ('flow-control-invariant', lambda c: flow_inv(c)),
         ('reader-woken', lambda c: woken(c)),
     ])
 exception_received.abstract_fns = ABSTRACT
@@ -1165,14 +1314,17 @@ resume_writing = Spec(
     loops={1: LoopSpec(header='for datatype in self._drain_waiters', modifies=['ghost_drain_woken'],
                        invariant=lambda c: z3.And(z3.Not(c.new('_write_paused')), z3.Implies(
                            KEYPOS(c.oldv('_drain_waiters').dom, kz_of(c.oldv('ghost_wkey'))) < for_i(c),
-                           woken(c, 'ghost_drain_woken', kz_of(c.oldv('ghost_wkey'))))))},
+                           drain_woken_or_redirected(c)))),},
     requires=lambda c: z3.Select(c.oldv('_drain_waiters').dom, kz_of(c.oldv('ghost_wkey'))),
     ensures=[('write-resumed', lambda c: z3.Not(c.new('_write_paused'))),
-             ('blocked-drainers-woken', lambda c: woken(c, 'ghost_drain_woken', kz_of(c.oldv('ghost_wkey'))))])
+             ('blocked-drainers-woken', lambda c: z3.Or(
+                 z3.Select(c.oldv('_readers').dom, kz_of(c.oldv('ghost_wkey'))),
+                 woken(c, 'ghost_drain_woken', kz_of(c.oldv('ghost_wkey')))))])
 
 
 # ================================================================== exit status / exit signal (channel.py)
 from .common import PACKET_CLASSES, PACKET_INLINE, PACKET_TRUTHY, packet_wf
+from pyvc.builtins_model import unbe
 
 EXIT_CHAN = {'_exit_status': 'opt[int]', '_exit_signal': 'opt[tuple[str,bool,str,str]]',
              '_session': 'obj:Session', '_utf8_decode_errors': 'str'}
@@ -1200,10 +1352,44 @@ process_exit_status = Spec(
                                c.ex.veq(c.new_state, c.newv('_exit_status'),
                                         c.events('exit_status_received')[0][1][0])
                                if c.events('exit_status_received') else False)),
+             # tied to the wire: the uint32 at the read position of the request payload, reduced to its low byte
+             ('status-is-uint32-at-the-read-position-and-0xff', lambda c: c.ex.veq(
+                 c.new_state, c.newv('_exit_status'),
+                 VInt(unbe(z3.Extract(c.old_state.rec(c.argv('packet')).fields['_packet'].z,
+                                      c.old_state.rec(c.argv('packet')).fields['_idx'].z, 4)) % 256))),
              ('session-told-exactly-once', lambda c: z3.BoolVal(len(c.events('exit_status_received')) == 1)),
              ('request-accepted', lambda c: c.result)],
     returns='bool',
     raises={'PacketDecodeError': lambda c: z3.BoolVal(len(c.events('exit_status_received')) == 0)})
+
+
+def signal_notify_stub(cx):
+    """session.exit_signal_received(signal, core_dumped, msg, lang): by then the channel must already report it"""
+    cur = cx.selff('_exit_signal')
+    want = VTuple(list(cx.args))
+    ok = z3.And(z3.Not(cur.isnone), cx.ex.veq(cx.st, cur.val, want)) if isinstance(cur, VOpt) else \
+        (cx.ex.veq(cx.st, cur, want) if cur is not VNone else z3.BoolVal(False))
+    cx.require('signal-stored-before-the-session-is-told', ok)
+    return [Out(ret=VNone, event=('exit_signal_received', tuple(cx.args)))]
+
+
+signal_notify_stub.modifies = ()
+
+process_exit_signal = Spec(
+    PROP, 'channel', 'SSHClientChannel._process_exit_signal_request', self_class='SSHClientChannel',
+    params=dict(packet='obj:SSHPacket'), classes=EXIT_CLASSES, inline=dict(PACKET_INLINE), truthy=PACKET_TRUTHY,
+    stubs={'self._session.exit_signal_received': signal_notify_stub},
+    requires=lambda c: packet_wf(c, c.argv('packet')),
+    returns='bool',
+    ensures=[('signal-recorded-and-session-told-exactly-once',
+              lambda c: z3.And(z3.BoolVal(len(c.events('exit_signal_received')) == 1),
+                               z3.Not(c.is_none(c.newv('_exit_signal'))))),
+             ('request-accepted', lambda c: c.result)],
+    # a malformed request reports nothing and records nothing
+    raises={'PacketDecodeError': lambda c: z3.And(z3.BoolVal(len(c.events('exit_signal_received')) == 0),
+                                                  c.is_none(c.newv('_exit_signal')) == c.is_none(c.oldv('_exit_signal'))),
+            'ProtocolError': lambda c: z3.And(z3.BoolVal(len(c.events('exit_signal_received')) == 0),
+                                              c.is_none(c.newv('_exit_signal')) == c.is_none(c.oldv('_exit_signal')))})
 
 
 def has_status(c):
@@ -1241,7 +1427,13 @@ CLASSES['SSHStreamSession'] = STREAM
 CLASSES['Writer'] = {}
 
 
+EOF_UNIT = z3.Unit(R.UNIT.ue)
+
+
 def fed_stub(kind):
+    """writer.write / write_exception / write_eof of a redirection target: ghost_fed logs, in order, what the target
+    was given.  write() of a stream / process target may push back synchronously (SSHProcess.pause_feeding: the
+    datatype joins _paused_write_streams and reading is paused), and write() of a file target may fail."""
     def stub(cx):
         fed = cx.selff('ghost_fed').z
         a = cx.args[0] if cx.args else None
@@ -1250,10 +1442,17 @@ def fed_stub(kind):
         elif kind == 'exc':
             new = z3.Concat(fed, R.mark(a.exc.z if isinstance(a, VOrExc) else a.z))
         else:
-            new = fed
-        return [Out(ret=VNone, osets=[(cx.ex.self_ref, 'ghost_fed', VSeq(new, 'opaque:RbUnit'))],
-                    event=('write_' + kind, tuple(cx.args)))]
-    stub.modifies = ('ghost_fed',)
+            new = z3.Concat(fed, EOF_UNIT)
+        me = cx.ex.self_ref
+        ev = ('write_' + kind, tuple(cx.args))
+        outs = [Out(ret=VNone, osets=[(me, 'ghost_fed', VSeq(new, 'opaque:RbUnit'))], event=ev)]
+        if kind == 'data':
+            outs.append(Out(ret=VNone, osets=[(me, 'ghost_fed', VSeq(new, 'opaque:RbUnit')),
+                                              (me, 'ghost_pws', VBool(True)), (me, '_read_paused', VBool(True))],
+                            event=ev))
+            outs.append(Out(exc=VExc('OSError')))
+        return outs
+    stub.modifies = ('ghost_fed', 'ghost_pws', '_read_paused') if kind == 'data' else ('ghost_fed',)
     return stub
 
 
@@ -1287,15 +1486,22 @@ feed_recv_buf = Spec(
     lemmas=lambda c: auto_lemmas(c, extra=[R.flat(buf(c)), R.dlen(buf(c)), R.ok(buf(c))]),
     ensures=[
         # "redirections copy all data and then EOF"
-        ('everything-buffered-is-copied-in-order',
-         lambda c: c.new('ghost_fed') == z3.Concat(c.old('ghost_fed'), R.flat(buf(c, False)))),
+        ('everything-buffered-is-copied-in-order-then-eof-iff-received',
+         lambda c: c.new('ghost_fed') == z3.If(
+             c.old('_eof_received'),
+             z3.Concat(c.old('ghost_fed'), R.flat(buf(c, False)), EOF_UNIT),
+             z3.Concat(c.old('ghost_fed'), R.flat(buf(c, False))))),
         ('buffer-emptied', lambda c: R.flat(buf(c)) == app_delta(c)),
-        ('eof-forwarded-iff-received-and-after-the-data',
-         lambda c: z3.BoolVal(len(c.events('write_eof')) == 1) == c.old('_eof_received')),
         ('buffer-length-accounting', lambda c: accounted(c)),
         ('no-empty-chunk-left', lambda c: R.ok(buf(c))),
         ('flow-control-invariant', lambda c: flow_inv(c)),
-    ])
+    ],
+    # a failing target write: the target has received a prefix, in order, and the buffer is untouched (the byte
+    # count of that prefix has already been released: accounting is NOT re-established on this path - declared)
+    raises={'OSError': lambda c: z3.And(
+        buf(c) == buf(c, False),
+        c.new('ghost_fed') == z3.Concat(c.old('ghost_fed'),
+                                        R.flat(z3.Extract(buf(c, False), 0, c.new_state.env['__loop_i__'].z))))})
 feed_recv_buf.abstract_fns = ABSTRACT
 
 
@@ -1306,6 +1512,10 @@ def readuntil_contract_stub(cx):
     from pyvc.contracts import Ctx
     spec = readuntil_newline
     ex, st = cx.ex, cx.st
+    # the contract used here is the one of readuntil(_NEWLINE, ...): "one line" means split at the newline sentinel
+    cx.require('separator-is-the-newline-sentinel',
+               z3.BoolVal(isinstance(cx.args[0], VTag) and cx.args[0].tag == NEWLINE_TAG.tag))
+    cx.require('datatype-passed-through', kz_of(cx.args[1]) == kz_of(st.env['datatype']))
     recv = ex.self_ref
     args = {'separator': cx.args[0], 'datatype': cx.args[1], 'max_separator_len': VInt(0)}
     c0 = Ctx(ex, st, st, recv, args=args)
@@ -1324,18 +1534,21 @@ def readuntil_contract_stub(cx):
     s2, sets = havoc()
     r = ex.fresh(s2, 'bytes', 'line')
     c1 = Ctx(ex, st, s2, recv, result=r, args=args)
-    outs.append(Out(ret=r, sets=sets, assume=[f(c1) for _l, f in spec.ensures]))
+    outs.append(Out(ret=r, sets=sets, assume=[f(c1) for _l, f in spec.ensures] + [f(c1) for _l, f in spec.always]))
     s3, sets3 = havoc()
     p = ex.fresh(s3, 'bytes', 'partial')
     exc = VExc('IncompleteReadError', args=(p, VNone), attrs={'partial': p})
     c2 = Ctx(ex, st, s3, recv, raised='IncompleteReadError', result=exc, args=args)
-    outs.append(Out(exc=exc, sets=sets3, assume=[spec.raises['IncompleteReadError'](c2)]))
+    outs.append(Out(exc=exc, sets=sets3, assume=[spec.raises['IncompleteReadError'](c2)] +
+                    [f(c2) for _l, f in spec.always]))
     s4, sets4 = havoc()
     e = ex.fresh(s4, 'opaque:Exc', 'marker')
     exc2 = VExc('Exception', attrs={'opaque': e})
     c3 = Ctx(ex, st, s4, recv, raised='Exception', result=exc2, args=args)
-    outs.append(Out(exc=exc2, sets=sets4, assume=[spec.raises['Exception'](c3)]))
-    outs.append(Out(exc=VExc('CancelledError'), sets=havoc()[1]))
+    outs.append(Out(exc=exc2, sets=sets4, assume=[spec.raises['Exception'](c3)] + [f(c3) for _l, f in spec.always]))
+    s5, sets5 = havoc()
+    c4 = Ctx(ex, st, s5, recv, raised='CancelledError', result=VExc('CancelledError'), args=args)
+    outs.append(Out(exc=VExc('CancelledError'), sets=sets5, assume=[f(c4) for _l, f in spec.always]))
     return outs
 
 
@@ -1362,6 +1575,7 @@ readline = Spec(
         ('one-line-or-the-newline-free-remainder', readline_post),
         ('buffer-length-accounting', lambda c: accounted(c)),
         ('no-empty-chunk-left', lambda c: R.ok(buf(c)))],
+    always=[('flow-control-invariant', lambda c: flow_inv(c))],
     raises={'CancelledError': True, 'Exception': lambda c: readuntil_newline.raise_marker(c)})
 
 
@@ -1397,3 +1611,34 @@ def extra_checks(tier, seed):
     except Exception as e:      # harness trouble is never a verdict
         bounded = {'name': name, 'inputs': 0, 'violations': [], 'error': repr(e)}
     return {'lemmas': lemmas, 'bounded': [bounded]}
+
+
+# ------------------------------------------------------------------ SSHProcess: data / EOF arriving after a redirection
+STREAM['_writers'] = f'dict[{KT},obj:Writer]'       # SSHProcess only: redirection targets per datatype
+STREAM['_recv_eof'] = f'dict[{KT},bool]'
+CLASSES['SSHStreamSession'] = STREAM
+
+
+def has_writer(c):
+    return z3.Select(c.oldv('_writers').dom, kz_of(c.argv('datatype')))
+
+
+process_data_received = Spec(
+    PROP, 'process', 'SSHProcess.data_received', self_class='SSHStreamSession',
+    params=dict(data='bytes', datatype=KT), classes=CLASSES,
+    stubs={'writer.write': fed_stub('data'), 'super().data_received': contract_stub(lambda: data_received)},
+    requires=lambda c: z3.And(wf(c), view_is(c), accounted(c, False), R.ok(buf(c, False)), flow_inv(c, False)),
+    ensures=[
+        # "redirections copy all data": with a target set for the datatype the data goes to it, in arrival order,
+        # and not into the stream buffer; without one it is buffered for the stream readers
+        ('redirected-data-goes-to-the-target-only', lambda c: z3.Implies(has_writer(c), z3.And(
+            c.new('ghost_fed') == z3.Concat(c.old('ghost_fed'), R.units(c.arg('data'))),
+            c.newv('_recv_buf').val == c.oldv('_recv_buf').val,
+            c.new('_recv_buf_len') == c.old('_recv_buf_len')))),
+        ('unredirected-data-is-buffered', lambda c: z3.Implies(z3.Not(has_writer(c)), z3.And(
+            data_received_post(c), c.new('ghost_fed') == c.old('ghost_fed')))),
+        ('buffer-length-accounting', lambda c: accounted(c)),
+        ('no-empty-chunk-left', lambda c: R.ok(buf(c))),
+    ],
+    raises={'OSError': lambda c: has_writer(c)})
+process_data_received.abstract_fns = ABSTRACT
